@@ -60,8 +60,8 @@ def codec_tie(ctx, prof, pfile, wd):
         ctx.log(log[-3000:])
         return
     cmd = [paths["hx_avbc"], "--mode", "codec", "--seed", str(ctx.seed), "--file", pfile, "--tmp", wd,
-           "--compiled", "30" if quick else "150", "--hand", "250" if quick else "3000",
-           "--mutants", "1500" if quick else "20000", "--raw", "100" if quick else "2000"]
+           "--compiled", "30" if quick else "120", "--hand", "250" if quick else "1500",
+           "--mutants", "1500" if quick else "8000", "--raw", "100" if quick else "1000"]
     if not quick:
         cmd.append("--big-thorough")
     rc, out = vlib.sh(cmd, timeout=1200)
@@ -292,7 +292,7 @@ def run(ctx):
     ok, out = vlib.coq_make(["Base/CaseCheck.vo", "Model/AvbcObs.vo"])
     wd = workdir(ctx)
     quick = ctx.tier == "quick"
-    corpus, progs = programs(ctx, 30 if quick else 400)
+    corpus, progs = programs(ctx, 30 if quick else 300)
     pfile = os.path.join(wd, "progs.txt")
     open(pfile, "w", encoding="utf-8").write("\n=====\n".join(progs))
     profiles = ["dev"] if quick else ["dev", "release"]
